@@ -130,6 +130,8 @@ type cpCall struct {
 	// Deref: for each pointer argument, what the cell it points to held when the call was made (the call is
 	// assumed to change it afterwards); nil for the other arguments
 	Deref []cpVal
+	// MapT: for a recorded map lookup, the static type of the map
+	MapT types.Type
 }
 
 // cpOutcome is one way the folded function can end.
@@ -339,6 +341,10 @@ var cpMaxOutcomes = 96
 // cpFoldAll: folds started through cpFoldOpt follow every module function, whatever is known about its
 // arguments (set around a fold whose outcomes are to be compared with each other).
 var cpFoldAll = false
+
+// cpNilInvokePanics: a method called on a nil interface value ends the path in a run-time panic (set by the rules
+// that ask about panics; elsewhere the call is recorded with its nil receiver for the rules that look for it)
+var cpNilInvokePanics = false
 
 // cpMaxDepth: how deep cpFoldOpt follows calls (a call beyond it is recorded, not folded)
 var cpMaxDepth = 8
@@ -1580,6 +1586,10 @@ func (e *cpEngine) evalCall(fr *cpFrame, x *ssa.Call, depth int) cpVal {
 		return e.resultOf(fr, x, "builtin")
 	}
 	if cc.IsInvoke() {
+		// a method called on a nil interface value: a run-time panic
+		if _, isNil := e.get(fr, cc.Value).(cpNil); isNil && cpNilInvokePanics {
+			panic(cpAbort{why: "panic-instr"})
+		}
 		// a method of reflect.Type on a modelled type
 		if rt, ok := e.get(fr, cc.Value).(*cpRType); ok {
 			args := make([]cpVal, len(cc.Args))
